@@ -59,7 +59,7 @@ def make_cases(tier, profile):
     return cases
 
 BOUNDS = dict(universe='3 users whose registration and all modes are symbolic, 64-bit symbolic counters constrained by Inv (I6), 2 channels',
-              commands='LUSERS, ISON, USERHOST (known, unknown, repeated nicks), MODE +-iwoO, OPER (also repeated), NICK, JOIN, PART, KICK, QUIT+teardown as counter-preserving steps; register_conn_state / Drop with symbolic 64-bit count and limit',
+              commands='LUSERS, ISON, USERHOST (known, unknown, repeated nicks), MODE +-iwoO, OPER (also repeated), NICK, JOIN, PART, KICK, QUIT+teardown as counter-preserving steps; a registration onto a taken nick refused by USER / CAP END followed by the teardown of that connection (presence of the registered user kept); register_conn_state / Drop with symbolic 64-bit count and limit',
               outside='the first number of 251 may be all users or visible users; registration (add_user) is judged by C03; more than 20 nicknames per ISON/USERHOST')
 
 if __name__ == '__main__':
